@@ -2,6 +2,8 @@ import Driver.Core
 import Driver.Pure
 import Driver.Vdb
 import Driver.Ledger
+import Driver.Pool
+import Driver.Rewards
 /-
 One line per handler object. The first handler that understands a line answers it.
 -/
@@ -11,7 +13,10 @@ def registry : List Obj := [
   pureObj purePow,
   pureObj pureRpc,
   vdbObj,
-  ledgerObj
+  ledgerObj,
+  pureObj purePool,
+  pureObj pureRewards,
+  mkObj (⟨[], none⟩ : ZV.Pool.PState) poolStep
 ]
 
 end ZV.Driver
